@@ -86,6 +86,11 @@ def runDeterminism (c : Case) : Res :=
     | some m => { verdict := "ORACLE", tags := "of=C09" :: s!"mode={m.name}" :: tags,
                   msg := s!"mode {m.name}: {m.distinct} different outputs in {m.runs} runs of the same command; first difference: {m.diff}" }
     | none =>
+      -- a panic (exit status 101 of a Rust process) in any mode loses every security's report
+      match p.modes.find? (fun m => m.exit == 101) with
+      | some m => { verdict := "ORACLE", tags := "of=C05,C08" :: s!"mode={m.name}" :: tags,
+                    msg := s!"mode {m.name}: the process panicked (exit status 101); no security is reported" }
+      | none =>
       -- --csv-output-dir writes one file per security (plus the aggregate and the two cost tables):
       -- a missing file means two securities were written to the same name (C08: one security's
       -- report silently replaces another's)
@@ -94,7 +99,9 @@ def runDeterminism (c : Case) : Res :=
       let nfiles := (csvDirLine.bind (fun l => (l.dropWhile (· != "files")).drop 1 |>.head?)).bind (·.toNat?)
       match nfiles with
       | some nf =>
-        if nsecs > 0 && nf ≠ nsecs + 3 && (p.modes.find? (fun m => m.name == "csv-dir")).map (·.exit) == some 0 then
+        -- (a run that wrote nothing and failed is a global failure — unreadable input — and not judged)
+        if nsecs > 0 && nf ≠ nsecs + 3 &&
+            ((p.modes.find? (fun m => m.name == "csv-dir")).map (·.exit) == some 0 || nf > 0) then
           { verdict := "ORACLE", tags := "of=C08" :: tags,
             msg := s!"--csv-output-dir wrote {nf} files for {nsecs} securities (expected one per security plus 3 tables)" }
         else
